@@ -45,15 +45,18 @@ def run(ctx):
     ctx.extra['unreviewed_sites'] = unreviewed
     ctx.extra['model_verdict'] = 'deterministic' if r.status == 'ok' else 'order-sensitive site(s): lead, decided by the recorded compilations'
     # ---- (2) recorded compilations validated by TLC
-    fields = ['bn254', 'tinyfield'] if quick else ['bn254', 'bls12-377', 'bw6-761', 'tinyfield', 'koalabear']
+    # every process compiles over several fields one after the other; the two processes use opposite orders, so a
+    # compilation that depends on what was compiled before (caches keyed too coarsely, global counters) shows up as
+    # a digest that differs between the processes
+    fields = ['bn254', 'bw6-761', 'tinyfield'] if quick else ['bn254', 'bls12-377', 'bw6-761', 'bls24-315', 'tinyfield', 'koalabear']
     k = 8 if quick else 24
     events = []
-    for field in fields:
-        for proc in range(2):
-            recs = ctx.harness(['compiledet', '--field', field, '--k', str(k), '--par', '8' if quick else '16'], timeout=1800)
-            for e in recs:
-                e['proc'] = proc
-            events += recs
+    for proc, order in enumerate((fields, list(reversed(fields)))):
+        recs = ctx.harness(['compiledet', '--field', ','.join(order), '--k', str(k), '--par', '8' if quick else '16',
+                            '--kmany', '240' if quick else '1200'], timeout=3600)
+        for e in recs:
+            e['proc'] = proc
+        events += recs
     errs = [e for e in events if e.get('err')]
     if errs:
         # a corpus circuit that does not compile: the corpus (or an API it uses) is out of date -> not a verdict
@@ -75,8 +78,8 @@ def run(ctx):
     ctx.traces += 1
     for key, v in sorted(bad.items()):
         # confirm on a fresh process before reporting
-        recs = ctx.harness(['compiledet', '--field', key[2], '--circuit', key[0], '--k', '16', '--par', '8'], timeout=900)
-        again = {e['digest'] for e in recs if e['builder'] == key[1]}
+        recs = ctx.harness(['compiledet', '--field', ','.join(fields), '--circuit', key[0], '--k', '16', '--par', '8', '--kmany', '400'], timeout=900)
+        again = {e['digest'] for e in recs if e['builder'] == key[1] and e['field'] == key[2]}
         again |= set(v.keys())
         if len(again) > 1:
             ctx.report('nondeterministic compilation circuit=%s builder=%s' % (key[0], key[1]),
